@@ -1,4 +1,4 @@
-import Litep2pVerif.Proofs.Wire.Roundtrip
+import Litep2pVerif.Proofs.Wire.KadEncoders
 /-!
 # C19 — Bytes from the network can never panic or over-allocate a decoder
 
@@ -86,14 +86,187 @@ theorem kad_peers_bounded (peerIdOk addrOk : List Nat → Bool) (repl : Nat) (ps
       subst hq
       exact Nat.min_le_right _ _
 
+/-! ## Encoders round-trip
+
+`X.encode` is prost's `encode_raw` for the struct prost-build generates from the `.proto` file, `X.decode`
+its `decode`; both are regenerated from /repo's `.proto` files on every run (`tools/proto2lean.py`).
+`m.WF` says what the Rust types guarantee (i32 ranges, UTF-8 strings, lengths and nested encodings
+below 2^64); it is decidable. The static nesting of every schema is within prost's recursion limit
+(`X.nest ≤ recursionLimit`, checked by `decide` inside `X.decode_encode`). -/
+
+/-- **Kademlia**: every `schema::kademlia::Message` value decodes to itself. -/
+theorem kad_roundtrip (m : KMessage) (h : m.WF) : KMessage.decode (KMessage.encode m) = some m :=
+  KMessage.decode_encode m h
+
+example : ({ type := 4, key := [1, 2], clusterLevelRaw := 10, record := some { key := [1], value := [7, 7], ttl := 3600 },
+             closerPeers := [{ id := [0x12, 0x01, 0x05], addrs := [[4, 127, 0, 0, 1, 6, 0, 80], []], connection := 2 }, {}],
+             providerPeers := [{ connection := -1 }] } : KMessage).WF := by decide
+
+example : KMessage.encode { type := 1, key := [9], record := some {}, closerPeers := [{ id := [5] }] } =
+    [0x08, 0x01, 0x12, 0x01, 0x09, 0x1a, 0x00, 0x42, 0x03, 0x0a, 0x01, 0x05] := by decide
+
+/-- **Identify.** -/
+theorem identify_roundtrip (m : Identify) (h : m.WF) : Identify.decode (Identify.encode m) = some m :=
+  Identify.decode_encode m h
+
+example : ({ protocolVersion := some [0x2f, 0x61], agentVersion := some [0xc3, 0xbc], publicKey := some [8, 1],
+             listenAddrs := [[4, 10, 0, 0, 1, 6, 0, 1], []], observedAddr := none, protocols := [[0x2f, 0x78], []] } : Identify).WF ∧
+    ¬ ({ agentVersion := some [0xff] } : Identify).WF := by decide
+
+/-- **Bitswap.** -/
+theorem bitswap_roundtrip (m : BsMessage) (h : m.WF) : BsMessage.decode (BsMessage.encode m) = some m :=
+  BsMessage.decode_encode m h
+
+example : ({ wantlist := some { entries := [{ block := [1, 2], priority := -5, cancel := true, wantType := 1, sendDontHave := true }, {}],
+                                full := true },
+             blocks := [[1], []], payload := [{ pfx := [1, 0x55, 0x12, 0x20], data := [0xde, 0xad] }],
+             blockPresences := [{ cid := [1, 2, 3], type := 1 }], pendingBytes := 2147483647 } : BsMessage).WF ∧
+    ¬ ({ pendingBytes := 2147483648 } : BsMessage).WF := by decide
+
+example : BsMessage.encode { wantlist := some {}, payload := [{ data := [7] }] } = [0x0a, 0x00, 0x1a, 0x03, 0x12, 0x01, 0x07] := by
+  decide
+
+/-- **Noise handshake payload.** -/
+theorem noise_payload_roundtrip (m : NoisePayload) (h : m.WF) : NoisePayload.decode (NoisePayload.encode m) = some m :=
+  NoisePayload.decode_encode m h
+
+example : ({ identityKey := some [8, 1, 0x12, 0], identitySig := some [], extensions := some { streamMuxers := [[0x2f, 0x79]] } } :
+    NoisePayload).WF := by decide
+
+/-- **Public key** (proto2 `required` fields: always written). -/
+theorem public_key_roundtrip (m : PublicKeyPb) (h : m.WF) : PublicKeyPb.decode (PublicKeyPb.encode m) = some m :=
+  PublicKeyPb.decode_encode m h
+
+example : PublicKeyPb.encode {} = [0x08, 0x00, 0x12, 0x00] ∧ ({ type := 1, data := [1, 2, 3] } : PublicKeyPb).WF := by decide
+
+/-- **WebRTC framing message** (its decoder is compiled only with the `webrtc` feature; the schema is
+translated all the same). -/
+theorem webrtc_message_roundtrip (m : WebRtcMessage) (h : m.WF) : WebRtcMessage.decode (WebRtcMessage.encode m) = some m :=
+  WebRtcMessage.decode_encode m h
+
+example : ({ flag := some 3, message := some [1, 2] } : WebRtcMessage).WF ∧
+    WebRtcMessage.encode { flag := some 0 } = [0x08, 0x00] := by decide
+
+/-! ## The hand-written Kademlia encoders (kademlia/message.rs) against `KademliaMessage::from_bytes`
+
+`peerIdOk`/`addrOk` are the third-party peer-id and multiaddr parsers (parameters). The hypotheses are the
+stated limits: well-formed message, peers that `try_from` accepts, no more peers than the replication
+factor (more are cut off by `take`). -/
+
+/-- The written-out request bytes are what prost encodes for `find_node`/`get_record`/
+`get_providers_request`. -/
+theorem kad_request_encoding (type : Nat) (key : List Nat) :
+    encodeKadRequest type key = KMessage.encode { type := Int.ofNat type, key := key, clusterLevelRaw := 10 } :=
+  encodeKadRequest_eq type key
+
 /-- The Kademlia request encodings (`find_node`, `get_record`, `get_providers_request`: type, key,
-clusterLevelRaw = 10) decode to the value that was encoded. -/
+clusterLevelRaw = 10) decode to the value that was encoded — a corollary of `kad_roundtrip`. -/
 theorem kad_request_roundtrip (type : Nat) (key : List Nat) (ht : type < 2 ^ 31) (hk : key.length < 2 ^ 64) :
     KMessage.decode (encodeKadRequest type key) =
-      some { type := Int.ofNat type, clusterLevelRaw := 10, key := key } :=
-  kadRequest_roundtrip type key ht hk
+      some { type := Int.ofNat type, clusterLevelRaw := 10, key := key } := by
+  rw [encodeKadRequest_eq]
+  exact kad_roundtrip _ (kadRequest_wf type key ht hk)
 
 example : encodeKadRequest 4 [1, 2] = [0x08, 0x04, 0x12, 0x02, 0x01, 0x02, 0x50, 0x0a] := by decide
+
+/-- `find_node`. -/
+theorem kad_find_node_roundtrip (peerIdOk addrOk : List Nat → Bool) (repl : Nat) (key : List Nat)
+    (h : (kadFindNode key).WF) :
+    kadFromBytes peerIdOk addrOk repl (KMessage.encode (kadFindNode key)) = some (.findNode key []) := by
+  rw [kadFromBytes_encode _ _ _ _ h]
+  simp [kadOfMessage, kadFindNode, peersFrom]
+
+/-- `put_value`. -/
+theorem kad_put_value_roundtrip (peerIdOk addrOk : List Nat → Bool) (repl : Nat) (r : RecordIn)
+    (h : (kadPutValue r).WF) (hr : recordInOk peerIdOk r) :
+    kadFromBytes peerIdOk addrOk repl (KMessage.encode (kadPutValue r)) = some (.putValue (recordOutOf r)) := by
+  rw [kadFromBytes_encode _ _ _ _ h]
+  simp [kadOfMessage, kadPutValue, recordFromSchema_ok peerIdOk r hr]
+
+/-- `get_record`. -/
+theorem kad_get_record_roundtrip (peerIdOk addrOk : List Nat → Bool) (repl : Nat) (key : List Nat)
+    (h : (kadGetRecord key).WF) :
+    kadFromBytes peerIdOk addrOk repl (KMessage.encode (kadGetRecord key)) =
+      some (.getRecord (if key.isEmpty then none else some key) none []) := by
+  rw [kadFromBytes_encode _ _ _ _ h]
+  simp [kadOfMessage, kadGetRecord, peersFrom]
+
+/-- `find_node_response`: up to `replication_factor` acceptable peers come back as sent. -/
+theorem kad_find_node_response_roundtrip (peerIdOk addrOk : List Nat → Bool) (repl : Nat) (key : List Nat)
+    (peers : List PeerIn) (h : (kadFindNodeResponse key peers).WF) (hp : ∀ p ∈ peers, peerInOk peerIdOk p)
+    (hl : peers.length ≤ repl) :
+    kadFromBytes peerIdOk addrOk repl (KMessage.encode (kadFindNodeResponse key peers)) =
+      some (.findNode key (peers.map (peerOutOf addrOk))) := by
+  rw [kadFromBytes_encode _ _ _ _ h]
+  have := peersFrom_map peerIdOk addrOk repl id peers hp hl
+  simp only [id] at this
+  simp [kadOfMessage, kadFindNodeResponse, this]
+
+/-- `put_value_response`. -/
+theorem kad_put_value_response_roundtrip (peerIdOk addrOk : List Nat → Bool) (repl : Nat) (key value : List Nat)
+    (h : (kadPutValueResponse key value).WF) :
+    kadFromBytes peerIdOk addrOk repl (KMessage.encode (kadPutValueResponse key value)) =
+      some (.putValue { key := key, value := value, publisher := none, hasExpiry := false }) := by
+  rw [kadFromBytes_encode _ _ _ _ h]
+  simp [kadOfMessage, kadPutValueResponse, recordFromSchema]
+
+/-- `get_value_response` (non-empty key, as every caller passes). -/
+theorem kad_get_value_response_roundtrip (peerIdOk addrOk : List Nat → Bool) (repl : Nat) (key : List Nat)
+    (peers : List PeerIn) (record : Option RecordIn) (h : (kadGetValueResponse key peers record).WF)
+    (hk : key ≠ []) (hp : ∀ p ∈ peers, peerInOk peerIdOk p) (hl : peers.length ≤ repl)
+    (hr : optAll (recordInOk peerIdOk) record) :
+    kadFromBytes peerIdOk addrOk repl (KMessage.encode (kadGetValueResponse key peers record)) =
+      some (.getRecord (some key) (record.map recordOutOf) (peers.map (peerOutOf addrOk))) := by
+  rw [kadFromBytes_encode _ _ _ _ h]
+  have := peersFrom_map peerIdOk addrOk repl id peers hp hl
+  simp only [id] at this
+  cases record with
+  | none => simp [kadOfMessage, kadGetValueResponse, this, hk]
+  | some r => simp [kadOfMessage, kadGetValueResponse, this, hk, recordFromSchema_ok peerIdOk r hr]
+
+/-- `add_provider`: the provider arrives with connection type `CanConnect`. -/
+theorem kad_add_provider_roundtrip (peerIdOk addrOk : List Nat → Bool) (repl : Nat) (key : List Nat)
+    (provider : PeerIn) (h : (kadAddProvider key provider).WF) (hk : key ≠ []) (hp : peerIdOk provider.id = true)
+    (hl : 1 ≤ repl) :
+    kadFromBytes peerIdOk addrOk repl (KMessage.encode (kadAddProvider key provider)) =
+      some (.addProvider key [peerOutOf addrOk { provider with conn := 2 }]) := by
+  rw [kadFromBytes_encode _ _ _ _ h]
+  have := peersFrom_map peerIdOk addrOk repl (fun p => { p with conn := 2 }) [provider]
+    (by intro p hp'; simp at hp'; subst hp'; exact ⟨hp, (by show (0 : Int) ≤ 2; decide), (by show (2 : Int) ≤ 3; decide)⟩) (by simpa using hl)
+  simp only [List.map_cons, List.map_nil] at this
+  simp [kadOfMessage, kadAddProvider, this, hk]
+
+/-- `get_providers_request`. -/
+theorem kad_get_providers_request_roundtrip (peerIdOk addrOk : List Nat → Bool) (repl : Nat) (key : List Nat)
+    (h : (kadGetProvidersRequest key).WF) :
+    kadFromBytes peerIdOk addrOk repl (KMessage.encode (kadGetProvidersRequest key)) =
+      some (.getProviders (if key.isEmpty then none else some key) [] []) := by
+  rw [kadFromBytes_encode _ _ _ _ h]
+  simp [kadOfMessage, kadGetProvidersRequest, peersFrom]
+
+/-- `get_providers_response`: providers arrive as `NotConnected`, closer peers as sent, no key. -/
+theorem kad_get_providers_response_roundtrip (peerIdOk addrOk : List Nat → Bool) (repl : Nat)
+    (providers closer : List PeerIn) (h : (kadGetProvidersResponse providers closer).WF)
+    (hp : ∀ p ∈ providers, peerIdOk p.id = true) (hc : ∀ p ∈ closer, peerInOk peerIdOk p)
+    (hlp : providers.length ≤ repl) (hlc : closer.length ≤ repl) :
+    kadFromBytes peerIdOk addrOk repl (KMessage.encode (kadGetProvidersResponse providers closer)) =
+      some (.getProviders none (closer.map (peerOutOf addrOk))
+        (providers.map fun p => peerOutOf addrOk { p with conn := 0 })) := by
+  rw [kadFromBytes_encode _ _ _ _ h]
+  have h1 := peersFrom_map peerIdOk addrOk repl id closer hc hlc
+  simp only [id] at h1
+  have h2 := peersFrom_map peerIdOk addrOk repl (fun p => { p with conn := 0 }) providers
+    (fun p hp' => ⟨hp p hp', (by show (0 : Int) ≤ 0; decide), (by show (0 : Int) ≤ 3; decide)⟩) hlp
+  simp [kadOfMessage, kadGetProvidersResponse, h1, h2]
+
+example : (kadFindNodeResponse [1, 2] [{ id := [0, 1, 9], addrs := [[4, 1, 2, 3, 4, 6, 0, 1]], conn := 1 }]).WF ∧
+    (kadPutValue { key := [1], value := [2, 3], publisher := some [0, 1, 9], ttl := 4294967295 }).WF ∧
+    recordInOk (fun b => b.length == 3) { key := [1], value := [2, 3], publisher := some [0, 1, 9], ttl := 1 } ∧
+    peerInOk (fun b => b.length == 3) { id := [0, 1, 9], addrs := [], conn := 3 } := by decide
+
+example : kadFromBytes (fun _ => true) (fun _ => true) 20
+    (KMessage.encode (kadGetProvidersResponse [{ id := [7], addrs := [[1], [1], [2]], conn := 3 }] [{ id := [8], addrs := [], conn := 1 }])) =
+    some (.getProviders none [{ id := [8], naddrs := 0, conn := 1 }] [{ id := [7], naddrs := 2, conn := 0 }]) := by decide
 
 end Litep2pVerif.Props.C19
 
@@ -119,3 +292,35 @@ open Litep2pVerif.Props.C19 in
 #print axioms kad_peers_bounded
 open Litep2pVerif.Props.C19 in
 #print axioms kad_request_roundtrip
+open Litep2pVerif.Props.C19 in
+#print axioms kad_roundtrip
+open Litep2pVerif.Props.C19 in
+#print axioms identify_roundtrip
+open Litep2pVerif.Props.C19 in
+#print axioms bitswap_roundtrip
+open Litep2pVerif.Props.C19 in
+#print axioms noise_payload_roundtrip
+open Litep2pVerif.Props.C19 in
+#print axioms public_key_roundtrip
+open Litep2pVerif.Props.C19 in
+#print axioms webrtc_message_roundtrip
+open Litep2pVerif.Props.C19 in
+#print axioms kad_request_encoding
+open Litep2pVerif.Props.C19 in
+#print axioms kad_find_node_roundtrip
+open Litep2pVerif.Props.C19 in
+#print axioms kad_put_value_roundtrip
+open Litep2pVerif.Props.C19 in
+#print axioms kad_get_record_roundtrip
+open Litep2pVerif.Props.C19 in
+#print axioms kad_find_node_response_roundtrip
+open Litep2pVerif.Props.C19 in
+#print axioms kad_put_value_response_roundtrip
+open Litep2pVerif.Props.C19 in
+#print axioms kad_get_value_response_roundtrip
+open Litep2pVerif.Props.C19 in
+#print axioms kad_add_provider_roundtrip
+open Litep2pVerif.Props.C19 in
+#print axioms kad_get_providers_request_roundtrip
+open Litep2pVerif.Props.C19 in
+#print axioms kad_get_providers_response_roundtrip
